@@ -158,7 +158,49 @@ def primary_dispatch(ctx, rule, fn, result_local_name=None, min_lits=10):
     if d.default_bb is not None:
         blocks = prim.region(fn, d.default_bb, stop)
         arms[("_",)] = ArmInfo(fn, ctx.prog, ["_"], d.default_bb, blocks)
+    arms = _split_nested(fn, ctx.prog, d, arms)
     return d, arms, {"join": join, "res_local": res_local}
+
+
+def _split_nested(fn, prog, d, arms):
+    """An arm shared by several tokens that tells them apart again inside (`"-a" | "-and" | "-o" | "-or" | "," => { common
+    checks; match tok { "-o" | "-or" => .., .. } }`) is split into one arm per group of tokens that take the same way through
+    it: each sub-arm is the part of the region consistent with its tokens. Two arms with separate copies of the common
+    checks and one arm with an inner match then look the same to the rules."""
+    if not d.tests:
+        return arms
+    subj = d.tests[0]["subject"].strip().fmt() if d.tests[0].get("subject") is not None else None
+    all_tests = prim.str_tests(fn)
+    outer_bbs = {t["bb"] for t in d.tests}
+    out = {}
+    for lits, a in arms.items():
+        inner = [t for t in all_tests if t["bb"] in a.blocks and t["lit"] in lits and t.get("subject") is not None and t["subject"].strip().fmt() == subj and t["bb"] not in outer_bbs]
+        if len(lits) < 2 or not inner:
+            out[lits] = a
+            continue
+        by_bb = {t["bb"]: t for t in inner}
+        groups = {}
+        for L in lits:
+            seen = set()
+            st = [a.entry]
+            while st:
+                b = st.pop()
+                if b in seen or b not in a.blocks:
+                    continue
+                seen.add(b)
+                t = by_bb.get(b)
+                if t is not None:
+                    st.append(t["true_bb"] if t["lit"] == L else t["false_bb"])
+                    continue
+                for s in fn.succs(b):
+                    st.append(s)
+            groups.setdefault(frozenset(seen), []).append(L)
+        if len(groups) < 2:
+            out[lits] = a
+            continue
+        for blocks, ls in groups.items():
+            out[tuple(ls)] = ArmInfo(fn, prog, ls, a.entry, set(blocks))
+    return out
 
 
 def arm_of(arms, lit):
